@@ -212,3 +212,21 @@ func StopsOneShort(path []string, want string) bool {
 	}
 	return false
 }
+
+type treeNode struct {
+	name string
+	kids []*treeNode
+}
+
+// WalksBreadthFirst violates R1.9 WORKLIST-ORDER: taking from the front and adding at the back visits level by level.
+func WalksBreadthFirst(root *treeNode) []string {
+	var out []string
+	pending := []*treeNode{root}
+	for len(pending) > 0 {
+		n := pending[0]
+		pending = pending[1:]
+		out = append(out, n.name)
+		pending = append(pending, n.kids...)
+	}
+	return out
+}
